@@ -80,6 +80,19 @@ GridScn(kind, g, m) ==
 Grid == {GridScn("linear",  [i \in 1..4 |-> g[i] * H], m) : g \in Linear, m \in Transforms}
         \cup {GridScn("radial",  [i \in 1..6 |-> g[i] * H], m) : g \in Radial, m \in Transforms}
         \cup {GridScn("conical", <<g[1] * H, g[2] * H, g[3] * F>>, m) : g \in Conical, m \in Transforms}
+(* ---- far periods: linear gradients whose vector is a small fraction of a pixel long, or seen through a      *)
+(* strongly down-scaling transform, so that t is 2^10 .. 2^18 periods away from [0,1]                          *)
+FarVec == {48, 80, 112, 768, 1280, 12288}                  \* length of the gradient vector in 1/65536 pixel
+FarOrg == {4, -60, -200, -250}                             \* p1 in pixels
+Down == <<256 * F, 0, 0, 0, 256 * F, 0, 0, 0, F>>
+FarScn(g, m, r, w) == [stops |-> GridStops, kind |-> "linear", g |-> g, repeat |-> r, m |-> m, wide |-> w]
+Far == {FarScn(<<o * F, F, o * F + d, F>>, <<>>, r, w) : o \in FarOrg, d \in FarVec, r \in {"NONE", "NORMAL", "PAD", "REFLECT"}, w \in BOOLEAN}
+       \cup {FarScn(<<F, o * F, F, o * F + d>>, <<>>, r, w) : o \in FarOrg, d \in FarVec, r \in {"NORMAL", "REFLECT"}, w \in BOOLEAN}
+       \cup {FarScn(<<o * F, o * F, o * F + d, o * F + d>>, <<>>, r, w) : o \in FarOrg, d \in FarVec, r \in {"NORMAL", "REFLECT"}, w \in BOOLEAN}
+       \cup {FarScn(<<0, 0, d, 0>>, Down, r, w) : d \in {H, 3 * H, F}, r \in {"NONE", "NORMAL", "PAD", "REFLECT"}, w \in BOOLEAN}
+FarInit == phase = 7 /\ scn \in Far /\ GInit
+FarSpec == FarInit /\ [][UNCHANGED <<phase, scn, gst>>]_<<phase, scn, gst>>
+
 GridInit == phase = 7 /\ scn \in Grid /\ GInit
 GridSpec == GridInit /\ [][UNCHANGED <<phase, scn, gst>>]_<<phase, scn, gst>>
 =============================================================================
